@@ -25,6 +25,7 @@ type Clause struct {
 	Line  string
 	After string // cut/assert position: variable name
 	AfterN int
+	Guard    ast.Expr   // cut/assert: the clause applies only where this condition is known to hold
 	Abstract []ast.Expr // cut/assert: objects whose contents are abstracted (fresh) once the lemma is proved
 }
 
@@ -509,6 +510,15 @@ func (db *SpecDB) loadFile(path string, pkgPath string, marker bool) error {
 						}
 						c.Abstract = append(c.Abstract, ax)
 					}
+				}
+				// optional guard: label[@pos] if <cond> -- the clause applies only on paths where cond is known to hold
+				if head, g, ok := strings.Cut(c.Name, " if "); ok {
+					c.Name = strings.TrimSpace(head)
+					gx, err := parseSpecExpr(strings.TrimSpace(g))
+					if err != nil {
+						return fmt.Errorf("%s: guard %q: %v", where, g, err)
+					}
+					c.Guard = gx
 				}
 				// optional position: label@var#k fires once `var` has been assigned k times
 				if lbl, pos, ok := strings.Cut(c.Name, "@"); ok {
